@@ -212,6 +212,7 @@ class SuiteResult:
         self.driver_rc = 0
         self.wall = 0.0
         self.extra = {}
+        self.not_comparable = 0
 
 
 def input_part(line):
@@ -275,6 +276,9 @@ def run_suite(suite, tier, seed, tag, replay_in=None, extra_env=None):
         k = int(f[0])
         line = lines[k - 1]
         status, oracles, nontriv, cls = f[1], f[2], f[3] == "1", f[4]
+        model_fails = len(f) > 5 and f[5] == "1"
+        only_o = suite.get("oracles")
+        only_d = suite.get("diffs")
         res.lines += 1
         res.classes[cls] = res.classes.get(cls, 0) + 1
         inp = input_part(line)
@@ -283,6 +287,15 @@ def run_suite(suite, tier, seed, tag, replay_in=None, extra_env=None):
         if len(res.samples) < 3 and nontriv:
             res.samples.append({"suite": suite["name"], "input": inp[:400], "verdict": status, "oracles": oracles, "class": cls})
         ofails = [] if oracles == "-" else oracles.split(",")
+        if only_o is not None:
+            ofails = [o for o in ofails if o[:-2] in only_o]
+        if only_d is not None and status.startswith("DIFF:") and not status.startswith("DIFF:malformed"):
+            kinds = [d.split("@")[0] for d in status[5:].split(",")]
+            if not any(k in only_d for k in kinds):
+                # the first divergence concerns another property's observables: this
+                # case cannot be compared further for this property
+                res.not_comparable += 1
+                continue
         unpred = [o[:-2] for o in ofails if o.endswith(":U")]
         pred = [o[:-2] for o in ofails if o.endswith(":P")]
         if unpred:
@@ -294,7 +307,9 @@ def run_suite(suite, tier, seed, tag, replay_in=None, extra_env=None):
         elif status.startswith("DIFF:malformed"):
             res.malformed.append((k, line, status))
         else:
-            if cls.startswith("F") and not ofails:
+            if cls.startswith("F") and not ofails and model_fails:
+                # outside the proved domain the model predicts a known failure that the
+                # implementation does not show: a repaired finding is not an alarm
                 res.diff_F_info.append((k, line, status, cls))
             else:
                 res.diff_D.append((k, line, status, cls))
